@@ -106,7 +106,7 @@ func msgOfLen(r *rand.Rand, n int) []byte {
 func runC01(c *ctx) {
 	r := c.res.Rng
 	c.res.Rule = "FROST / FROST-Taproot: every signer subset |S|>t for n<=4 (sampled for n=5); Doerner; CMP sign and presign+online for n=3 non-prefix subsets; " +
-		"digest lengths 1..80; schedules fifo/lifo/latest-first/random; each signature judged by the Coq reference verifier; non-trivial = all; distinct by (protocol, signers, message, seed, policy)"
+		"digest lengths 1..80; schedules fifo/lifo/latest-first/random; FROST and Doerner signing sessions running concurrently in one process (private key-material objects per goroutine); each signature judged by the Coq reference verifier; non-trivial = all; distinct by (protocol, signers, message, seed, policy)"
 	pols := []string{"fifo", "lifo", "latest-first", "random"}
 	k := 0
 	maxN := 4
@@ -181,6 +181,8 @@ func runC01(c *ctx) {
 		sp := SessionSpec{Name: "doerner-sign", IDs: ids}
 		c.checkDoernerSign(sp, sg, cr.Public, msg, int64(i))
 	}
+	// ---- concurrent sessions in one process ----
+	c.c01Concurrent()
 	// ---- CMP ----
 	usePrimeCache()
 	ids := idsOf("alice", "bob", "carl")
